@@ -3,7 +3,7 @@ ENGINES = [
     {"name": "E2", "path": "mc/props/c06.py", "kind_free_text": "explicit-state breadth-first search over call histories of a real Record (state = history replayed on a fresh object, canonical state hash, invariants in every state, differential oracles)",
      "serves_properties": ["C06", "C08"]},
     {"name": "E1", "path": "mc/engine/core.py", "kind_free_text": "bounded exhaustive input enumeration of the real functions against set-of-bases / truth-table reference models, sharded over processes",
-     "serves_properties": ["C01", "C02", "C03", "C04", "C05", "C07", "C08"]},
+     "serves_properties": ["C01", "C02", "C03", "C04", "C05", "C07", "C08", "C09"]},
 ]
 NOT_APPLICABLE = {}
 CHECKS = {
@@ -56,4 +56,11 @@ CHECKS = {
                      "search over all call histories up to depth 6/8 of a 15-16 operation alphabet on real Records; numbering, identity, parent/child "
                      "links, no stale references, clear+create idempotence and build-order independence are checked in every state.",
                 note="Canonicalisation drops only fields no public accessor exposes; enabling conditions follow the pipeline order (protoclusters -> candidates -> regions); depth bound 6 (quick) / 8 (thorough)."),
+    "C09": dict(engine="E1", level="exploration", ref="DESIGN.md 5/C09",
+                technique="bounded exhaustive enumeration of gene structures x protein ranges through the real coordinate mapping vs the transcript-order list",
+                text="Every gene structure (strand, 1-3 exons at every cut incl. mid-codon, intron lengths, origin before/on every exon border/inside "
+                     "every exon/inside every intron) x every protein range through get_sub_location_from_protein_coordinates, Prepeptide.to_biopython, "
+                     "TTA markers, NRPS/PKS domain and motif feature generation; the returned location's transcript-order base list must equal "
+                     "the gene's transcript slice (inside the gene, three bases per residue, same strand).",
+                note="Coding lengths 12-21, <=3 exons, ring of 60; Biopython extract() semantics is the trusted definition of 'encodes'; split TTA codons may be left unmarked."),
 }
